@@ -144,9 +144,9 @@ def argsAfterName (name : String) : List String → List String
   | x :: rest => if x = name then rest else argsAfterName name rest
 
 /-- TIE between two places of the source: the sentinel the request handler tests at `request[i]` (`None if request[i] == S`)
-is the literal the action schema admits for the field that `form_request` puts at position `i` — `ALL` for protocol / addresses /
+is the literal the action schema allows for the field that `form_request` puts at position `i` — `ALL` for protocol / addresses /
 ports, `NONE` for the wildcard masks, whatever the spelling, for both add-rule actions; and every field of the schema that
-admits a literal is consumed by such a test. -/
+allows a literal is consumed by such a test. -/
 theorem C07_gen_sentinels_agree :
     (∀ act, act ∈ ["RouterACLAddRuleAction", "FirewallACLAddRuleAction"] →
       ∀ x, x ∈ Primaite.Gen.AclState.requestLayout → x.2.2.1 ≠ "-" →
